@@ -236,10 +236,43 @@ def run_cbmc(q, extra=()):
     tier_to = ob.get('timeout', 600)
     if os.environ.get('VF_TIMEOUT_CAP'): tier_to = min(tier_to, int(os.environ['VF_TIMEOUT_CAP']))
     open(os.path.join(q.wd, 'cbmc.cmd'), 'w').write(' '.join(cmd) + '\n')
-    with open(os.path.join(q.wd, 'cbmc.json'), 'wb') as fo:
-        r = run(cmd, cwd=q.wd, timeout=tier_to, mem_gb=ob.get('mem_gb', 16), stdout=fo)
-    if r['timeout']:
-        return dict(verdict='timeout', wall=r['wall'], cmd=cmd)
+    # Solver portfolio: SAT time is not a stable function of the query (an unused helper added to the prelude moved one
+    # query from 3 s to over 100 s with MiniSat while CaDiCaL needed 12 s).  When the default back end has not answered
+    # after 30..90 s, the same query is also given to CaDiCaL; the first verdict wins.
+    def pre():
+        os.setsid()
+        try: ctypes.CDLL(None).prctl(1, signal.SIGKILL)
+        except Exception: pass
+        lim = int(ob.get('mem_gb', 16) * (1 << 30)); resource.setrlimit(resource.RLIMIT_AS, (lim, lim))
+    t0 = time.time(); procs = []
+    def start(c, out):
+        fo = open(os.path.join(q.wd, out), 'wb')
+        procs.append((subprocess.Popen(c, cwd=q.wd, stdout=fo, stderr=open(os.path.join(q.wd, out + '.err'), 'wb'), preexec_fn=pre), out, c, fo))
+    start(cmd, 'cbmc.json')
+    second_at = None if (ob.get('sat_solver') or ob.get('portfolio') is False or any('sat-solver' in x for x in cmd)) else max(30, min(90, tier_to // 8))
+    winner = None
+    while time.time() - t0 < tier_to and winner is None and procs:
+        for pr in list(procs):
+            if pr[0].poll() is not None:
+                txt = open(os.path.join(q.wd, pr[1]), 'rb').read().decode('latin1')
+                pp = parse_cbmc_json(txt)
+                if (pp is not None and pp['status'] is not None) or len(procs) == 1: winner = pr; break
+                procs.remove(pr)                                   # this back end gave up (out of memory ...): wait for the other
+        if winner: break
+        if second_at is not None and time.time() - t0 >= second_at:
+            second_at = None; start(cmd + ['--sat-solver', 'cadical'], 'cbmc.cadical.json')
+        time.sleep(0.2)
+    for pr in procs:
+        if pr is not winner and pr[0].poll() is None:
+            try: os.killpg(pr[0].pid, signal.SIGKILL)
+            except ProcessLookupError: pass
+        pr[0].wait(); pr[3].close()
+    wall = time.time() - t0
+    if winner is None:
+        return dict(verdict='timeout', wall=wall, cmd=cmd, portfolio=len(procs) > 1)
+    cmd = winner[2]
+    if winner[1] != 'cbmc.json': os.replace(os.path.join(q.wd, winner[1]), os.path.join(q.wd, 'cbmc.json'))
+    r = dict(rc=winner[0].returncode, wall=wall, err=open(os.path.join(q.wd, winner[1] + '.err'), 'rb').read().decode('latin1'))
     text = open(os.path.join(q.wd, 'cbmc.json'), 'rb').read().decode('latin1')
     p = parse_cbmc_json(text)
     if p is None or p['status'] is None:
@@ -391,11 +424,12 @@ def do_query(q, tier, seed, validate=True):
         rec['stubs'] = [ln.split('prep_ir: ')[1] for ln in b['prep'].split('\n') if 'prep_ir: stub' in ln]
         rec['models_called'] = b['externals']
         c = run_cbmc(q)
-        if c['verdict'] == 'timeout' and not q.ob.get('sat_solver'):
+        if c['verdict'] == 'timeout' and not q.ob.get('sat_solver') and not c.get('portfolio'):
             # SAT run times vary; one retry with a different solver before giving up
             rec['retried_with'] = 'cadical'
             c = run_cbmc(q, extra=['--sat-solver', 'cadical'])
         rec['cbmc_wall_s'] = round(c['wall'], 2)
+        if 'cadical' in ' '.join(c.get('cmd', [])): rec['sat_backend'] = 'cadical'
         if c['verdict'] == 'timeout':
             rec['reason'] = 'cbmc timeout after %ds (no verdict)' % q.ob.get('timeout', 600); return rec
         if c['verdict'] == 'error':
